@@ -36,6 +36,9 @@ import (
 	"github.com/henrylee2cn/erpc/v6/plugin/overloader"
 	"github.com/henrylee2cn/erpc/v6/plugin/proxy"
 	"github.com/henrylee2cn/erpc/v6/plugin/secure"
+	"github.com/henrylee2cn/erpc/v6/proto/httproto"
+	"github.com/henrylee2cn/erpc/v6/proto/jsonproto"
+	"github.com/henrylee2cn/erpc/v6/proto/pbproto"
 	"github.com/henrylee2cn/erpc/v6/socket"
 )
 
@@ -243,6 +246,8 @@ type world struct {
 	fwd                          erpc.Session
 	direct, viaProxy             erpc.Session
 	fwdRes                       chan fwdResult
+	protoLis                     map[string]*Listener // backend listeners speaking another protocol
+	protoFn                      map[string]erpc.ProtoFunc
 	deadAddr                     string
 }
 
@@ -266,6 +271,16 @@ func newWorld() *world {
 	var err error
 	w.bl, err = Listen(w.backend, "")
 	Must(err)
+	// the same backend behind the other shipped protocols (their Unpack decodes the status)
+	w.protoFn = map[string]erpc.ProtoFunc{
+		"json": jsonproto.NewJSONProtoFunc(), "pb": pbproto.NewPbProtoFunc(), "http": httproto.NewHTTProtoFunc(),
+	}
+	w.protoLis = map[string]*Listener{}
+	for k, fn := range w.protoFn {
+		l, err := Listen(w.backend, "", fn)
+		Must(err)
+		w.protoLis[k] = l
+	}
 	// proxy
 	w.fwdCli = erpc.NewPeer(erpc.PeerConfig{})
 	w.proxyP = erpc.NewPeer(erpc.PeerConfig{}, proxy.NewPlugin(func(*proxy.Label) proxy.Forwarder { return forwarder{w} }))
@@ -432,6 +447,7 @@ func fwdVal(r fwdResult) string {
 
 var opKinds = []string{
 	"call_ok", "call_ok_secure", "call_404", "call_badbody", "call_panic", "call_custom",
+	"call_404_json", "call_404_pb", "call_404_http", "call_panic_json", "call_panic_pb", "call_panic_http",
 	"closed_call", "closed_push", "dial_fail", "mtype_405", "unprepared", "write_failed",
 	"proxy_call_up", "proxy_call_up_404", "proxy_call_up_panic", "proxy_call_up_1xx", "proxy_push_up",
 	"proxy_call_down", "proxy_push_down", "proxy_call_dying",
@@ -496,6 +512,31 @@ func (w *world) run(kind string, cfg *RunCfg, tag string) (r opResult) {
 		st := w.directSess().Call("/math/custom", &a, &res).Status()
 		r.obs, r.held = tripleOf(st), st
 		r.args = []string{VZ(int64(a.Code)), VB([]byte(a.Msg)), VB([]byte(a.Cause))}
+	case "call_404_json", "call_404_pb", "call_404_http", "call_panic_json", "call_panic_pb", "call_panic_http":
+		pk := kind[strings.LastIndex(kind, "_")+1:]
+		s, stat := w.plainCli.Dial(w.protoLis[pk].Addr, w.protoFn[pk])
+		if !stat.OK() {
+			abort("dial %s: %v", pk, stat)
+		}
+		var st *erpc.Status
+		if strings.HasPrefix(kind, "call_404") {
+			st = s.Call("/nobody/home", &AddArg{}, &res).Status()
+			r.kind = "call_404"
+			if pk == "http" {
+				r.kind = "call_404_http" // JSON form of the status on the wire
+			}
+		} else {
+			cause := "boom-" + pk + "-" + tag
+			st = s.Call("/math/panic", &cause, &res).Status()
+			r.kind = "call_panic"
+			if pk == "http" {
+				r.kind = "call_panic_http"
+			}
+			r.args = []string{VB([]byte(cause))}
+		}
+		s.Close()
+		r.obs, r.held = tripleOf(st), st
+		r.human = kind
 	case "closed_call":
 		st := w.closedSession().Call("/math/add", &AddArg{}, &res).Status()
 		r.obs, r.held = tripleOf(st), st
